@@ -22,7 +22,7 @@ int main(int argc, char **argv) {
     uint64_t randomCount = (uint64_t)R.args.geti("random", thorough ? 40000 : 2500);
     unsigned randMin = 5, randMax = 12;
     if (prop == "C10") {
-        variants = 3; // as enumerated, reversed, and (mapped to variant 4) a graph with a past
+        variants = 4; // as enumerated, reversed, (mapped to variant 4) a graph with a past, (variant 5) a source carrying forced duplicates
         dirExh = thorough ? 4 : 3;
         undExh = thorough ? 5 : 4;
         randMin = 4;
@@ -43,7 +43,7 @@ int main(int argc, char **argv) {
     forCases(R, total, "shape", [&](uint64_t idx) {
         uint64_t si = idx / variants;
         curVariant = (unsigned)(idx % variants);
-        if (prop == "C10" && curVariant == 2) curVariant = 4;
+        if (prop == "C10" && curVariant >= 2) curVariant += 2;
         bool directed = si < sd.count();
         cur = directed ? sd.at(si, R.args.seed) : su.at(si - sd.count(), R.args.seed);
         if (cur.exhaustive) R.count("graphs_from_exhaustive_enumeration");
